@@ -17,30 +17,33 @@ open DirectVerif DirectVerif.Dataset
 /-! ## index ranges of `H5SliceData` -/
 
 /-- **The per-volume index ranges are contiguous, ordered, start at 0, end at `len(dataset)`**, for
-every list of files (readable or not), every slice count and every slice filter … -/
-theorem ranges_contiguous {φ : Type} (files : List (φ × Option Nat)) (filt : Option PySliceT) :
+every list of distinct files (readable or not), every slice count and every slice filter … -/
+theorem ranges_contiguous {φ : Type} [DecidableEq φ] (files : List (φ × Option Nat)) (filt : Option PySliceT)
+    (hnd : ((readable files).map (·.1)).Nodup) :
     Contiguous 0 (parseFilenames files filt).vols (parseFilenames files filt).data.length := by
-  obtain ⟨h1, h2, _⟩ := parse_spec files filt
+  obtain ⟨h1, h2, _⟩ := parse_spec files filt hnd
   rw [h1, h2]
   simpa using volsFrom_contiguous filt 0 (readable files)
 
 /-- … hence they **partition `0 … len-1`**: every index lies in the range of exactly one volume. -/
-theorem ranges_partition {φ : Type} (files : List (φ × Option Nat)) (filt : Option PySliceT) (i : Nat)
+theorem ranges_partition {φ : Type} [DecidableEq φ] (files : List (φ × Option Nat)) (filt : Option PySliceT)
+    (hnd : ((readable files).map (·.1)).Nodup) (i : Nat)
     (hi : i < (parseFilenames files filt).data.length) :
     ∃ k, (∃ hk : k < (parseFilenames files filt).vols.length,
         ((parseFilenames files filt).vols[k]).2.1 ≤ i ∧ i < ((parseFilenames files filt).vols[k]).2.2) ∧
       ∀ k', (∃ hk' : k' < (parseFilenames files filt).vols.length,
         ((parseFilenames files filt).vols[k']).2.1 ≤ i ∧ i < ((parseFilenames files filt).vols[k']).2.2) → k' = k := by
-  have hc := ranges_contiguous files filt
+  have hc := ranges_contiguous files filt hnd
   obtain ⟨k, hk, h1, h2⟩ := contiguous_cover hc i (by omega) hi
   refine ⟨k, ⟨hk, h1, h2⟩, ?_⟩
   rintro k' ⟨hk', g1, g2⟩
   exact contiguous_disjoint hc i k' k hk' hk ⟨g1, g2⟩ ⟨h1, h2⟩
 
 /-- one range per readable file, in file order; unreadable files get none -/
-theorem ranges_files {φ : Type} (files : List (φ × Option Nat)) (filt : Option PySliceT) :
+theorem ranges_files {φ : Type} [DecidableEq φ] (files : List (φ × Option Nat)) (filt : Option PySliceT)
+    (hnd : ((readable files).map (·.1)).Nodup) :
     (parseFilenames files filt).vols.map (·.1) = (readable files).map (·.1) := by
-  rw [(parse_spec files filt).2.1]
+  rw [(parse_spec files filt hnd).2.1]
   generalize readable files = vs
   generalize 0 = c
   induction vs generalizing c with
@@ -73,14 +76,14 @@ theorem slices_sorted_admissible (filt : Option PySliceT) (n : Nat) :
 
 /-- **Item `i` is the slice its volume range designates**: for the `k`-th readable file `(f, n)` the
 range is `[a, a + #admissible)` and `data[a + r]` is `(f, r-th smallest admissible slice of f)`. -/
-theorem item_designated {φ : Type} (files : List (φ × Option Nat)) (filt : Option PySliceT) (k : Nat)
-    (hk : k < (readable files).length) :
+theorem item_designated {φ : Type} [DecidableEq φ] (files : List (φ × Option Nat)) (filt : Option PySliceT)
+    (hnd : ((readable files).map (·.1)).Nodup) (k : Nat) (hk : k < (readable files).length) :
     ∃ a, (parseFilenames files filt).vols[k]? =
         some ((readable files)[k].1, a, a + (sliceList filt (readable files)[k].2).length) ∧
       ∀ r (hr : r < (sliceList filt (readable files)[k].2).length),
         (parseFilenames files filt).data[a + r]? =
           some ((readable files)[k].1, (sliceList filt (readable files)[k].2)[r]) := by
-  obtain ⟨h1, h2, _⟩ := parse_spec files filt
+  obtain ⟨h1, h2, _⟩ := parse_spec files filt hnd
   obtain ⟨a, ha, hd⟩ := volsFrom_get filt (readable files) 0 k hk
   refine ⟨a, by rw [h2]; exact ha, fun r hr => ?_⟩
   rw [h1]
@@ -88,8 +91,8 @@ theorem item_designated {φ : Type} (files : List (φ × Option Nat)) (filt : Op
 
 /-- … and conversely: `data[i] = (f, s)` **iff** `i = start_k + r` for a volume `k` with file `f`
 whose `r`-th admissible slice is `s`. -/
-theorem item_designated_iff {φ : Type} (files : List (φ × Option Nat)) (filt : Option PySliceT) (i : Nat)
-    (f : φ) (s : Nat) :
+theorem item_designated_iff {φ : Type} [DecidableEq φ] (files : List (φ × Option Nat)) (filt : Option PySliceT)
+    (hnd : ((readable files).map (·.1)).Nodup) (i : Nat) (f : φ) (s : Nat) :
     (parseFilenames files filt).data[i]? = some (f, s) ↔
       ∃ (k a b r : Nat), (parseFilenames files filt).vols[k]? = some (f, a, b) ∧ i = a + r ∧ i < b ∧
         ∃ n : Nat, (readable files)[k]? = some (f, n) ∧ (sliceList filt n)[r]? = some s := by
@@ -99,10 +102,10 @@ theorem item_designated_iff {φ : Type} (files : List (φ × Option Nat)) (filt 
       rcases Nat.lt_or_ge i (parseFilenames files filt).data.length with h' | h'
       · exact h'
       · rw [List.getElem?_eq_none h'] at h; cases h
-    obtain ⟨k, ⟨hk, g1, g2⟩, _⟩ := ranges_partition files filt i hi
+    obtain ⟨k, ⟨hk, g1, g2⟩, _⟩ := ranges_partition files filt hnd i hi
     have hk' : k < (readable files).length := by
-      have := congrArg List.length (ranges_files files filt); simp at this; omega
-    obtain ⟨a, ha, hd⟩ := item_designated files filt k hk'
+      have := congrArg List.length (ranges_files files filt hnd); simp at this; omega
+    obtain ⟨a, ha, hd⟩ := item_designated files filt hnd k hk'
     rw [List.getElem?_eq_getElem hk] at ha
     have e := Option.some.inj ha
     rw [e] at g1 g2
@@ -121,7 +124,7 @@ theorem item_designated_iff {φ : Type} (files : List (φ × Option Nat)) (filt 
       rcases Nat.lt_or_ge k (readable files).length with h' | h'
       · exact h'
       · rw [List.getElem?_eq_none h'] at hn; cases hn
-    obtain ⟨a', ha, hd⟩ := item_designated files filt k hk'
+    obtain ⟨a', ha, hd⟩ := item_designated files filt hnd k hk'
     rw [List.getElem?_eq_getElem hk'] at hn
     have en := Option.some.inj hn
     rw [hv] at ha
@@ -137,6 +140,100 @@ theorem item_designated_iff {φ : Type} (files : List (φ × Option Nat)) (filt 
     rw [hd r hr, hfa]
     rw [hn2, List.getElem?_eq_getElem hr] at hs
     rw [Option.some.inj hs]
+
+
+/-- what holds for **every** list of files, repeated names included: `self.data` is volume after volume
+the admissible slices in increasing order (the `dict` is not involved) -/
+theorem data_designated_partial {φ : Type} [DecidableEq φ] (files : List (φ × Option Nat)) (filt : Option PySliceT) :
+    (parseFilenames files filt).data = dataOf filt (readable files) := parse_data_spec files filt
+
+/-- **finding**: `volume_indices` is keyed by file name, so a name that occurs twice (overlapping `.lst`
+lists, a repeated entry of `filenames_filter`) keeps only its last range: indices `0 … 2` below belong to
+no volume although `len(dataset) = 9` -/
+theorem duplicate_names_current_violates :
+    (parseFilenames [((1 : Nat), some 3), (2, some 3), (1, some 3)] none).vols = [(1, 6, 9), (2, 3, 6)] ∧
+    (parseFilenames [((1 : Nat), some 3), (2, some 3), (1, some 3)] none).data.length = 9 ∧
+    ∀ v ∈ (parseFilenames [((1 : Nat), some 3), (2, some 3), (1, some 3)] none).vols, ¬ (v.2.1 ≤ 0 ∧ 0 < v.2.2) := by
+  decide
+
+/-! ## which files: `filenames_filter` / `filenames_lists` / directory listing / `regex_filter` -/
+
+/-- an explicit `filenames_filter` decides alone (listing and lists are not consulted) -/
+theorem select_filter_wins {φ : Type} (srt : Bool) (le : φ → φ → Bool) (sel : Selection φ) (fs : List φ)
+    (h : sel.filter = some fs) :
+    selectFiles srt le sel = .ok (if sel.hasRegex then fs.filter sel.regexOk else fs) := by
+  simp [selectFiles, h]
+
+/-- **if the directory listing is sorted, the selected files — hence the whole index ↦ (file, slice)
+mapping — do not depend on the order in which the operating system lists the directory** -/
+theorem select_listing_invariant {φ : Type} (le : φ → φ → Bool)
+    (htot : ∀ a b, le a b = true ∨ le b a = true)
+    (htr : ∀ a b c, le a b = true → le b c = true → le a c = true)
+    (hanti : ∀ a b, le a b = true → le b a = true → a = b)
+    (sel : Selection φ) (listing' : List φ) (h : sel.listing.Perm listing') :
+    selectFiles true le { sel with listing := listing' } = selectFiles true le sel := by
+  simp only [selectFiles, if_true]
+  rw [sortFiles_eq_of_perm le htot htr hanti sel.listing listing' h]
+
+theorem build_listing_invariant {φ : Type} [DecidableEq φ] (le : φ → φ → Bool)
+    (htot : ∀ a b, le a b = true ∨ le b a = true)
+    (htr : ∀ a b c, le a b = true → le b c = true → le a c = true)
+    (hanti : ∀ a b, le a b = true → le b a = true → a = b)
+    (sel : Selection φ) (listing' : List φ) (h : sel.listing.Perm listing') (nOf : φ → Option Nat) (F : FilterArg) :
+    (buildH5 true le { sel with listing := listing' } nOf F).toOption.map (fun P => (P.data, P.vols)) =
+      (buildH5 true le sel nOf F).toOption.map (fun P => (P.data, P.vols)) := by
+  unfold buildH5
+  rw [select_listing_invariant le htot htr hanti sel listing' h]
+
+/-- **finding**: the current tree uses `list(self.root.glob("*.h5"))` unsorted — two directories with the
+same files, listed in different orders by the operating system, give different datasets -/
+theorem listing_order_current_violates :
+    selectFiles listingSortedCurrent (fun a b => decide (a ≤ b)) ⟨[(2 : Nat), 1], none, none, false, false, fun _ => true⟩ ≠
+      selectFiles listingSortedCurrent (fun a b => decide (a ≤ b)) ⟨[1, 2], none, none, false, false, fun _ => true⟩ := by
+  decide
+
+/-- `FastMRIDataset` / `CalgaryCampinasDataset` never receive a context or a user slice filter -/
+theorem class_params_spec (crop : Bool) (sl : FilterArg) (c : Nat) :
+    (classParams .fastmri crop sl c).2 = 0 ∧ (classParams .calgary crop sl c).2 = 0 ∧
+    (classParams .h5 crop sl c).2 = c := ⟨rfl, rfl, rfl⟩
+
+/-! ## `CMRxReconDataset` -/
+
+/-- the per-volume ranges of `CMRxReconDataset` are those of the same fold with
+`num_slices = a·b` (2-D), `a` (context "slice"), `b` (context "time") -/
+theorem cmr_ranges_contiguous {φ : Type} [DecidableEq φ] (ctx : CmrContext) (files : List (φ × Option (Nat × Nat)))
+    (hnd : ((readable (files.map fun x => (x.1, x.2.map fun ab => cmrNumSlices ctx ab.1 ab.2))).map (·.1)).Nodup) :
+    Contiguous 0 (cmrParse ctx files).vols (cmrParse ctx files).data.length :=
+  ranges_contiguous _ none hnd
+
+/-- **2-D items**: `slice_no = s` addresses slice `s / b`, frame `s % b` of the file, and every
+`(k, l)` is addressed by exactly `s = k·b + l` -/
+theorem cmr_index_spec (a b s : Nat) (h : s < a * b) :
+    cmrBlock .none a b s = some [(s / b, s % b)] ∧ s / b < a ∧ s % b < b := by
+  have hb : 0 < b := by
+    rcases Nat.eq_zero_or_pos b with h0 | h0
+    · subst h0; simp at h
+    · exact h0
+  refine ⟨by simp [cmrBlock, cmrPairs_getElem? a b s h], ?_, Nat.mod_lt _ hb⟩
+  exact Nat.div_lt_of_lt_mul (by rw [Nat.mul_comm]; exact h)
+
+theorem cmr_index_onto (a b k l : Nat) (hk : k < a) (hl : l < b) :
+    k * b + l < a * b ∧ cmrBlock .none a b (k * b + l) = some [(k, l)] := by
+  have hlt : k * b + l < a * b := by
+    calc k * b + l < k * b + b := by omega
+      _ = (k + 1) * b := by rw [Nat.succ_mul]
+      _ ≤ a * b := Nat.mul_le_mul_right b hk
+  refine ⟨hlt, ?_⟩
+  rw [(cmr_index_spec a b _ hlt).1]
+  have hb : 0 < b := by omega
+  rw [Nat.mul_comm k b, Nat.mul_add_div hb, Nat.mul_add_mod, Nat.div_eq_of_lt hl, Nat.mod_eq_of_lt hl]
+  simp
+
+/-- 3-D items: context "slice" returns all frames of slice `s`, context "time" all slices of frame `s` -/
+theorem cmr_block_context (a b s : Nat) :
+    (s < a → cmrBlock .slice a b s = some ((List.range b).map fun l => (s, l))) ∧
+    (s < b → cmrBlock .time a b s = some ((List.range a).map fun k => (k, s))) := by
+  constructor <;> intro h <;> simp [cmrBlock, h]
 
 /-- `H5SliceData.__getitem__` (non-negative index): the item is `data[i]` together with the stack
 of that slice; negative indices address from the end (Python list indexing). -/
@@ -291,6 +388,10 @@ example : (parseFilenames exFiles exFilt).data = [(1, 1), (4, 1), (4, 3)] := by 
 example : (parseFilenames exFiles none).data.length = 9 := by decide
 example : 2 < (parseFilenames exFiles exFilt).data.length := by decide
 example : 2 < (readable exFiles).length := by decide
+example : ((readable exFiles).map (·.1)).Nodup := by decide
+example : cmrBlock .none 2 3 4 = some [(1, 1)] := by decide
+example : (cmrParse .time [((1 : Nat), some (2, 3)), (2, some (1, 4))]).vols = [(1, 0, 3), (2, 3, 7)] := by decide
+example : selectFiles true (fun a b => decide (a ≤ b)) ⟨[(2 : Nat), 3, 1], none, none, false, true, fun x => x != 3⟩ = .ok [1, 2] := by rfl
 example : sliceList (some ⟨none, none, some (-2)⟩) 5 = [0, 2, 4] := by decide
 example : numSlices (some ⟨some 50, some (-50), none⟩) 7 = 0 := by decide
 example : (2 : Nat) < 3 ∧ 4 < 2 * 2 + 1 := by decide
